@@ -115,6 +115,7 @@ package bsonkit
 //@ func Now
 //@   tags C08
 //@   requires tsSeconds < 4294967295
+//@   modifies tsSeconds, tsCounter
 //@   ensures [C08 name=strictly-increasing] result.T > old(tsSeconds) || (result.T == old(tsSeconds) && result.I > old(tsCounter))
 //@   ensures [C08 name=remembered] tsSeconds == result.T && tsCounter == result.I
 
@@ -400,11 +401,22 @@ package bsonkit
 //@ define entryOf(keys, doc) = mkstruct(S_bsonkit_indexEntry, keys, doc)
 //@ define otherTrees(i) = all(t, Ref, imp(t != i.btree, ghost.tree[t] == old(ghost.tree)[t]))
 
+// Uniqueness (C07). unique(i): no two entries of the tree have keys that are
+// equal in every column (spec.keysEq: BSON equality, across numeric types) and
+// belong to different documents. hasKey is trusted to report exactly whether
+// some entry has keys equal to the probe (its body walks the tree in order; the
+// order of the external btree is not modelled).
+//@ define uniqueTree(i) = all(e1, S_bsonkit_indexEntry, all(e2, S_bsonkit_indexEntry, imp(ghost.tree[i.btree][e1] && ghost.tree[i.btree][e2] &&
+//@   spec.keysEq(i.btree, spec.entryKeys(e1), spec.entryKeys(e2)), spec.entryDoc(e1) == spec.entryDoc(e2))))
+//@ define keyTaken(i, k) = any(e, S_bsonkit_indexEntry, ghost.tree[i.btree][e] && spec.keysEq(i.btree, spec.entryKeys(e), k))
+
 //@ func (*Index).hasKey
 //@   trusted
 //@   tags C07
+//@   uses btree
 //@   requires i != nil && i.btree != nil
 //@   modifies nothing
+//@   ensures result == keyTaken(i, keys)
 
 //@ func (*Index).Add
 //@   tags C07 C15
@@ -416,7 +428,11 @@ package bsonkit
 //@   ensures [C15 name=all-tuples-stored] imp(result, forall(j, 0, len(tuples), any(e, S_bsonkit_indexEntry, ghost.tree[i.btree][e] && spec.entryEqv(i.btree, e, entryOf(tuples[j], doc)))))
 //@   ensures [C15 name=only-this-document] all(e, S_bsonkit_indexEntry, imp(ghost.tree[i.btree][e] && !old(ghost.tree)[i.btree][e], any(j, Int, 0 <= j && j < len(tuples) && e == entryOf(tuples[j], doc))))
 //@   ensures [C15 name=other-trees] otherTrees(i)
-//@   loop 0 invariant ghost.tree == old(ghost.tree)
+//@   ensures [C07 name=stays-unique] imp(i.unique && old(uniqueTree(i)), uniqueTree(i))
+//@   ensures [C07 name=rejection-has-cause] imp(!result, any(e, S_bsonkit_indexEntry, ghost.tree[i.btree][e] && spec.entryEqv(i.btree, e, entryOf(tuples[0], doc))) ||
+//@     (i.unique && any(j, Int, 0 <= j && j < len(tuples) && keyTaken(i, tuples[j]))))
+//@   loop 0 invariant ghost.tree == old(ghost.tree) && forall(j, 0, rangeindex + 1, !keyTaken(i, tuples[j]))
+//@   loop 1 invariant imp(i.unique && old(uniqueTree(i)), uniqueTree(i) && all(e, S_bsonkit_indexEntry, imp(ghost.tree[i.btree][e] && any(j, Int, 0 <= j && j < len(tuples) && spec.keysEq(i.btree, spec.entryKeys(e), tuples[j])), spec.entryDoc(e) == doc)))
 //@   loop 1 invariant otherTrees(i) && forall(j, 0, rangeindex + 1, any(e, S_bsonkit_indexEntry, ghost.tree[i.btree][e] && spec.entryEqv(i.btree, e, entryOf(tuples[j], doc))))
 //@   loop 1 invariant all(e, S_bsonkit_indexEntry, imp(ghost.tree[i.btree][e] && !old(ghost.tree)[i.btree][e], any(j, Int, 0 <= j && j < rangeindex + 1 && e == entryOf(tuples[j], doc))))
 
@@ -429,6 +445,7 @@ package bsonkit
 //@   ensures [C15 name=rejected-unchanged] imp(!result, ghost.tree == old(ghost.tree))
 //@   ensures [C15 name=all-tuples-deleted] imp(result, forall(j, 0, len(tuples), all(e, S_bsonkit_indexEntry, imp(ghost.tree[i.btree][e], !spec.entryEqv(i.btree, e, entryOf(tuples[j], doc))))))
 //@   ensures [C15 name=only-removes] all(e, S_bsonkit_indexEntry, imp(ghost.tree[i.btree][e], old(ghost.tree)[i.btree][e]))
+//@   ensures [C07 name=stays-unique] imp(old(uniqueTree(i)), uniqueTree(i))
 //@   ensures [C15 name=only-this-document] all(e, S_bsonkit_indexEntry, imp(old(ghost.tree)[i.btree][e] && !ghost.tree[i.btree][e], any(j, Int, 0 <= j && j < len(tuples) && spec.entryEqv(i.btree, e, entryOf(tuples[j], doc)))))
 //@   ensures [C15 name=other-trees] otherTrees(i)
 //@   loop 0 invariant otherTrees(i) && all(e, S_bsonkit_indexEntry, imp(ghost.tree[i.btree][e], old(ghost.tree)[i.btree][e]))
@@ -447,3 +464,4 @@ package bsonkit
 //@   modifies ghost.tree
 //@   ensures [C03,C15 name=fresh-copy] result != nil && fresh(result) && result.btree != nil && fresh(result.btree) && ghost.tree[result.btree] == old(ghost.tree)[i.btree]
 //@   ensures [C03,C15 name=others-kept] all(t, Ref, imp(t != result.btree, ghost.tree[t] == old(ghost.tree)[t]))
+//@   ensures [C07 name=same-uniqueness] result.unique == i.unique
